@@ -242,8 +242,7 @@ class CFG:
         if include_src:
             out.add(src)
         start = (src, frozenset())
-        dq = deque([start])
-        seen.add(start)
+        dq = deque([start])      # not marked seen: a cycle back to src must be reported
         while dq:
             nid, st = dq.popleft()
             n = self.nodes[nid]
